@@ -406,7 +406,7 @@ theorem mEdgesSparse_noForeign (L R : Int) (fuel need : Nat) (G : BipG) :
       exact NoForeign.ite (ih _ _) (NoForeign.bind (NoForeign.lift _) (fun G1 => ih _ _))
 
 /-- both strategies of `bipartite_random_m_edges`, for a request in range: exactly `m` edges -/
-theorem mEdgesBody_ok (L R m : Int) (hL : 1 ≤ L) (hR : 1 ≤ R) (hm : 0 ≤ m)
+theorem mEdgesBody_ok (L R m : Int) (_hL : 1 ≤ L) (_hR : 1 ≤ R) (hm : 0 ≤ m)
     (ds rest : List Draw) (G : BipG) (h : mEdgesBody L R m ds = .ok G rest) :
     G.Inv ∧ G.l = L.toNat ∧ G.r = R.toNat ∧ G.numberOfEdges = m.toNat := by
   unfold mEdgesBody at h
